@@ -11,7 +11,7 @@ RULE = ("inputs: (i) random Unicode strings <= 64 chars biased to the lexer's ch
         "splice) of every query in tests/ and the README; (iv) mostly well-formed structured queries (quantities, functions incl. round(x,n), facts, "
         "powers, casts), 40% of them mutated; (v) long operator-free phrases (<= 40 words, 100-300 bytes, multi-byte characters at arbitrary byte offsets); (vi) pumped strings "
         "prefix + pattern^k + middle + closing^k + suffix of <= 300 characters. Bounds as the property states: a token after ^ or ** (and the digits argument of "
-        "round) is an integer literal of <= 2 digits and the product of all power magnitudes in one input is <= 100. Each input is run "
+        "round) is an integer literal of <= 2 digits and the product of all power magnitudes in one input is <= 600. Each input is run "
         "through parse+query in the debug-assertion and the release build; refuted by: a panic, abort or signal, no result sequence, an "
         "error whose range is not start<=end<=len on char boundaries or that codespan-reporting cannot render, a value that cannot be "
         "displayed, or non-termination (re-run alone, 60 s, twice). non-trivial = distinct input yielding >=1 error item or >=2 items")
@@ -27,7 +27,7 @@ def bound_powers(s):
     product of all power magnitudes <= 100; exponent notation of <= 3 digits; round's digits argument <= 2 digits."""
     out = []
     i = 0
-    budget = 100
+    budget = 600
     n = len(s)
     while i < n:
         c = s[i]
@@ -181,6 +181,15 @@ def gen_structured(rng, vocab):
         return "%s %s" % (num(), u)
     def atom():
         r = rng.random()
+        if rng.random() < 0.04:
+            # a prefixed unit under a power of two, raised once more: prefix exponent x accumulated power runs through 128, 256, 512
+            # (tables of powers of ten, fixed-width exponents) while the value stays small
+            px = rng.choice(["d", "da", "c", "h", "k", "m", "M", "u", "n", "G"])
+            base = rng.choice(["m", "s", "g", "A", "l", "N", "W"])
+            p1, p2 = rng.choice([2, 4, 8, 16, 32, 64, 99, -8, -16, -64]), rng.choice([2, 4, 8, 16, 32, 64, -4, -32])
+            if abs(p1 * p2) > 600:
+                p2 = rng.choice([2, 4, -4])
+            return "(%s %s%s^%d)^%d" % (rng.choice(["1", "2", "-1", "0.5"]), px, base, p1, p2)
         if r < 0.08:
             # boundary dictionary: quantities that are (or become after unit conversion) zero, one or a scale's fixed point
             return rng.choice(ZEROISH)
@@ -474,7 +483,7 @@ def run(tier, seed):
         fuzz_stage(acc, seed, bins, vocab, corp, int(os.environ.get("VERIF_C11_FUZZ_SECONDS") or 600))
     acc.counters["corpus_queries"] = len(corp)
     return finish(PID, tier, seed, "exploration", acc, RULE, t0,
-                  assumptions=["inputs are kept inside the property's bounds by a static filter (powers <= 2 digits, product of power magnitudes <= 100, exponents <= 3 digits, round's digits argument <= 2 digits); outside them the repeated-multiplication power loop simply runs long",
+                  assumptions=["inputs are kept inside the property's bounds by a static filter (powers <= 2 digits, product of power magnitudes <= 600, exponents <= 3 digits, round's digits argument <= 2 digits); outside them the repeated-multiplication power loop simply runs long",
                                "wall-clock is a verdict only for non-termination, after the input was re-run alone twice with a 60 s budget"],
                   min_eval=1000)
 
